@@ -42,6 +42,7 @@ import (
 	"github.com/cometbft/cometbft/libs/log"
 	tmproto "github.com/cometbft/cometbft/proto/tendermint/types"
 	sdk "github.com/cosmos/cosmos-sdk/types"
+	"github.com/cosmos/cosmos-sdk/store/rootmulti"
 	"github.com/cosmos/cosmos-sdk/types/query"
 	authtypes "github.com/cosmos/cosmos-sdk/x/auth/types"
 	banktypes "github.com/cosmos/cosmos-sdk/x/bank/types"
@@ -49,6 +50,7 @@ import (
 	"github.com/gogo/protobuf/proto"
 
 	"github.com/haqq-network/haqq/app"
+	feemarkettypes "github.com/haqq-network/haqq/x/feemarket/types"
 	vestingtypes "github.com/haqq-network/haqq/x/vesting/types"
 )
 
@@ -59,6 +61,7 @@ var bigOne = big.NewInt(1)
 const (
 	classQueryCtx = "restart:query-context-header-not-restored"
 	classCheckTx  = "restart:checktx-before-first-block"
+	classPreAnte  = "restart:gas-used-of-tx-failing-before-ante"
 )
 
 // ---------------------------------------------------------------- block observations
@@ -81,6 +84,8 @@ type blockObs struct {
 	// in-memory keeper fields around the block (compared with the Coq model, not between nodes)
 	ChainBefore, ChainAfter *big.Int `json:"-"`
 	Registry                []string `json:"-"`
+	PWrites                 []string `json:"-"` // evm / feemarket parameter updates that reached a handler, in order
+	Params                  pProj    `json:"-"` // projection of the stored parameters after the block
 }
 
 func hashEvents(evs []abci.Event) string {
@@ -116,15 +121,25 @@ func runBlock(h *hist, b hBlock) (ob blockObs, err error) {
 		dt = 1
 	}
 	ob.ChainBefore = c.App.EvmKeeper.ChainID()
+	h.pw = nil
 	bb := c.Begin(time.Duration(dt) * time.Second)
 	ob.Height = c.Hdr.Height
 	ob.Begin = hashEvents(bb.Events)
+	if os.Getenv("HVDEBUG") != "" {
+		for _, e := range bb.Events {
+			fmt.Fprintf(os.Stderr, "DBG h=%d begin %s %v\n", ob.Height, e.Type, e.Attributes)
+		}
+	}
 	for _, op := range b.Ops {
-		if e := h.apply(op); e != nil {
-			ob.Ops = append(ob.Ops, op.Op+":err")
-			h.errs = append(h.errs, op.Op+": "+trunc(e.Error(), 120))
+		label := op.Op
+		if op.Mod != "" {
+			label += "/" + op.Mod
+		}
+		if e := h.applyRestartOp(op); e != nil {
+			ob.Ops = append(ob.Ops, label+":err")
+			h.errs = append(h.errs, label+": "+trunc(e.Error(), 120))
 		} else {
-			ob.Ops = append(ob.Ops, op.Op+":ok")
+			ob.Ops = append(ob.Ops, label+":ok")
 		}
 	}
 	for _, r := range c.Resp {
@@ -139,6 +154,8 @@ func runBlock(h *hist, b hBlock) (ob blockObs, err error) {
 	ob.End = short(vu) + "/" + hashEvents(eb.Events)
 	ob.AppHash = hex.EncodeToString(hash)
 	ob.ChainAfter = c.App.EvmKeeper.ChainID()
+	ob.PWrites = h.pw
+	ob.Params = projParams(c.App, committedCtx(c.App, c.Hdr))
 	for _, ad := range c.App.EvmKeeper.GetAvailablePrecompileAddrs() {
 		ob.Registry = append(ob.Registry, new(big.Int).SetBytes(ad.Bytes()).String()+"%N")
 	}
@@ -171,6 +188,86 @@ func diffBlock(a, b blockObs) string {
 	return ""
 }
 
+// ---------------------------------------------------------------- K16: gas of a transaction that fails before the ante handler
+func preAnte(t txObs) bool { return t.Code != 0 && t.GasWanted == 0 }
+
+func hasPreAnte(ob blockObs) bool {
+	for _, t := range ob.Txs {
+		if preAnte(t) {
+			return true
+		}
+	}
+	return false
+}
+
+// storeHashes: the commit hash of every mounted store after the last commit.
+func storeHashes(a *app.Haqq) map[string]string {
+	out := map[string]string{}
+	rs, ok := a.CommitMultiStore().(*rootmulti.Store)
+	if !ok {
+		return out
+	}
+	for name, key := range rs.StoreKeysByName() {
+		if cs := rs.GetCommitStore(key); cs != nil {
+			out[name] = hex.EncodeToString(cs.LastCommitID().Hash)
+		}
+	}
+	return out
+}
+
+// explainPreAnte: a (continuous node), b (a node in its first block after a
+// restart) executed the same block, which contains a transaction that failed
+// before the ante handler.  known: the recorded difference (GasUsed of such
+// responses; when the block gas meter exceeds the limited gas wanted also the
+// fee market's block gas: its EndBlock event, its store, the app hash).
+// unexplained: any other difference.
+func explainPreAnte(a, b blockObs, appA, appB *app.Haqq) (known, unexplained string) {
+	if a.Begin != b.Begin {
+		return "", "BeginBlock events differ"
+	}
+	if len(a.Txs) != len(b.Txs) {
+		return "", fmt.Sprintf("%d vs %d transactions", len(a.Txs), len(b.Txs))
+	}
+	gas := []string{}
+	for i := range a.Txs {
+		x, y := a.Txs[i], b.Txs[i]
+		if preAnte(x) && preAnte(y) && x.GasUsed != y.GasUsed {
+			gas = append(gas, fmt.Sprintf("DeliverTx %d (code %d, gas wanted 0): gas used %d, the continuous node %d", i, y.Code, y.GasUsed, x.GasUsed))
+			y.GasUsed = x.GasUsed
+		}
+		if x != y {
+			return "", fmt.Sprintf("DeliverTx %d: %+v vs %+v", i, a.Txs[i], b.Txs[i])
+		}
+	}
+	if len(gas) == 0 {
+		return "", diffBlock(a, b)
+	}
+	known = strings.Join(gas, "; ")
+	vuA, vuB := strings.SplitN(a.End, "/", 2)[0], strings.SplitN(b.End, "/", 2)[0]
+	if vuA != vuB {
+		return "", "validator updates differ"
+	}
+	if a.AppHash == b.AppHash {
+		if a.End != b.End {
+			return "", "EndBlock events differ with equal app hashes"
+		}
+		return known, ""
+	}
+	// app hashes differ: only the fee market's store (block gas) may differ
+	ha, hb := storeHashes(appA), storeHashes(appB)
+	other := []string{}
+	for name, h := range ha {
+		if hb[name] != h && name != feemarkettypes.StoreKey {
+			other = append(other, name)
+		}
+	}
+	sort.Strings(other)
+	if len(other) > 0 || len(ha) == 0 {
+		return "", fmt.Sprintf("app hash differs and stores other than the fee market's differ: %v", other)
+	}
+	return known + "; the fee market stores another block gas: EndBlock event and app hash differ (every other store is identical)", ""
+}
+
 // ---------------------------------------------------------------- databases
 func copyMemDB(src dbm.DB) dbm.DB {
 	dst := dbm.NewMemDB()
@@ -191,12 +288,18 @@ func copyMemDB(src dbm.DB) dbm.DB {
 
 // ---------------------------------------------------------------- lineages
 type lineage struct {
-	name  string
-	h     *hist
-	from  int64    // first height this lineage executes
-	trace []string // Coq: per executed block (chain id before, after, registry after)
-	start string   // Coq: chain id cached when the lineage's current instance was constructed / initialised
-	segs  []string // Coq: finished (start, trace) segments: one per application instance
+	name      string
+	h         *hist
+	from      int64    // first height this lineage executes
+	trace     []string // Coq: per executed block (chain id before, after, registry after, parameter updates, parameters after)
+	start     string   // Coq: chain id cached when the lineage's current instance was constructed / initialised
+	startProj string   // Coq: projection of the stored parameters when the instance was opened
+	segs      []string // Coq: finished (start, parameters at start, trace) segments: one per application instance
+	// restart schedule: how many times in a row the process is stopped and started at boundary i (0 = keeps running)
+	reopenAt  func(i int) int
+	dir       string // goleveldb directory ("" = MemDB)
+	full      bool   // also compare ABCI Query / CheckTx of the fresh instance (the known start-up classes)
+	restarted bool   // the current instance has not executed a block yet
 }
 
 func coqOptBig(x *big.Int) string {
@@ -207,23 +310,37 @@ func coqOptBig(x *big.Int) string {
 }
 
 func (l *lineage) record(ob blockObs) {
-	l.trace = append(l.trace, fmt.Sprintf("(%s, %s, %s)", coqOptBig(ob.ChainBefore), coqOptBig(ob.ChainAfter), coqList(ob.Registry)))
+	l.trace = append(l.trace, fmt.Sprintf("(%s, %s, %s, %s, %s)", coqOptBig(ob.ChainBefore), coqOptBig(ob.ChainAfter), coqList(ob.Registry),
+		coqList(ob.PWrites), ob.Params.coq()))
+	l.restarted = false
+}
+
+// openProj: the parameters an instance finds in its database when it is opened
+// (before the first commit of a new chain: the state InitChain prepared).
+func openProj(c *Chain) pProj {
+	if c.Height == 0 {
+		return projParams(c.App, c.App.BaseApp.NewContext(false, tmproto.Header{ChainID: chainID}))
+	}
+	return projParams(c.App, committedCtx(c.App, c.header(c.Height, c.Time)))
 }
 
 // newInstance closes the segment of the previous application instance.
 func (l *lineage) newInstance() {
 	if l.start != "" {
-		l.segs = append(l.segs, fmt.Sprintf("(%s, %s)", l.start, coqList(l.trace)))
+		l.segs = append(l.segs, fmt.Sprintf("(%s, %s, %s)", l.start, l.startProj, coqList(l.trace)))
 	}
 	l.trace = nil
 	l.start = coqOptBig(l.h.c.App.EvmKeeper.ChainID())
+	l.startProj = openProj(l.h.c).coq()
 }
 
 // reopen: a new application instance on the lineage's database (= restart).
 // With goleveldb the handle is closed and the directory opened again.
-func (l *lineage) reopen(dir string) error {
+func (l *lineage) reopen() error {
 	c := l.h.c
 	db := c.DB
+	dir := l.dir
+	l.restarted = true
 	if dir != "" {
 		if err := db.Close(); err != nil {
 			return err
@@ -257,6 +374,11 @@ type restartObs struct {
 	CheckTx      []string          `json:"checktx_diffs,omitempty"`
 	Diverged     []string          `json:"tx_construction_diverged,omitempty"`
 	UpgradesDone []string          `json:"upgrades_applied,omitempty"`
+	Restarts     int               `json:"restarts"`
+	PreAnteGas   []string          `json:"gas_of_tx_failing_before_ante_diffs,omitempty"`
+	PreAnteShape int               `json:"blocks_first_after_restart_with_tx_failing_before_ante"`
+	Dropped      []string          `json:"lineages_dropped_after_known_divergence,omitempty"`
+	Halted       string            `json:"chain_halted_on_every_node,omitempty"`
 }
 
 // freshChecks compares a freshly opened instance (lineage l, at boundary k) with the continuous node.
@@ -280,6 +402,9 @@ func freshChecks(l1 *lineage, l *lineage, qs []qReq, msgs *[]string, nodeQ map[s
 				*msgs = append(*msgs, fmt.Sprintf("%s: query %s answers %s, the continuous node %s", tag, q.Name, trunc(r2, 60), trunc(r1, 60)))
 			}
 		}
+	}
+	if !l.full {
+		return
 	}
 	// (c) the node's own Query entry point (baseapp builds the context)
 	for _, q := range qs {
@@ -331,6 +456,7 @@ func restartQuerySet(ctx sdk.Context, a *app.Haqq, h *hist) []qReq {
 		qReq{"auth/accounts", "/cosmos.auth.v1beta1.Query/Accounts", &authtypes.QueryAccountsRequest{Pagination: page}},
 		qReq{"bank/params", "/cosmos.bank.v1beta1.Query/Params", &banktypes.QueryParamsRequest{}},
 	)
+	qs = append(qs, paramsQueries()...)
 	for _, v := range h.vest {
 		qs = append(qs, qReq{"bank/spendable/" + v.String(), "/cosmos.bank.v1beta1.Query/SpendableBalances", &banktypes.QuerySpendableBalancesRequest{Address: v.String(), Pagination: page}})
 		qs = append(qs, qReq{"vesting/balances2/" + v.String(), "/haqq.vesting.v1.Query/Balances", &vestingtypes.QueryBalancesRequest{Address: v.String()}})
@@ -356,7 +482,7 @@ func restartRunCase(id string, in hInput, useLevelDB bool, maxCopies int, r *Rng
 	c1.Tape = &txTape{}
 	l1 := &lineage{name: "continuous", h: &hist{c: c1, slots: map[common.Address]map[uint64]bool{}}, from: 1}
 	l1.newInstance()
-	// L2: restarted at every boundary, on the same database
+	// L2: restarted at every boundary (twice in a row at every third), on the same database
 	var db2 dbm.DB = dbm.NewMemDB()
 	dir := ""
 	if useLevelDB {
@@ -373,37 +499,128 @@ func restartRunCase(id string, in hInput, useLevelDB bool, maxCopies int, r *Rng
 		db2 = ldb
 		obs.DB = "goleveldb"
 	}
-	c2 := newChain(db2, nil)
-	c2.Tape = &txTape{Replay: true}
-	l2 := &lineage{name: "restarted-at-every-boundary", h: &hist{c: c2, slots: map[common.Address]map[uint64]bool{}}, from: 1}
-	l2.newInstance()
+	fromGenesis := func(name string, db dbm.DB, sched func(i int) int) *lineage {
+		c := newChain(db, nil)
+		c.Tape = &txTape{Replay: true}
+		l := &lineage{name: name, h: &hist{c: c, slots: map[common.Address]map[uint64]bool{}}, from: 1, reopenAt: sched}
+		l.newInstance()
+		return l
+	}
+	l2 := fromGenesis("restarted-at-every-boundary", db2, func(i int) int {
+		if i%3 == 0 {
+			return 2
+		}
+		return 1
+	})
+	l2.dir, l2.full = dir, true
 	defer func() {
 		if dir != "" {
 			l2.h.c.DB.Close()
 		}
 	}()
 	lins := []*lineage{l2}
+	droppedSegs := []string{}
+	_ = droppedSegs
+	// L3: keeps running for two blocks, then is stopped and started twice in a row;
+	// thorough: also the other phase, and a node restarted after every third block
+	lins = append(lins, fromGenesis("restarted-twice-at-even-boundaries", dbm.NewMemDB(), func(i int) int { return 2 * ((i + 1) % 2) }))
+	if maxCopies >= len(in.Blocks) {
+		lins = append(lins, fromGenesis("restarted-at-odd-boundaries", dbm.NewMemDB(), func(i int) int { return i % 2 }))
+		if len(in.Blocks) > 3 {
+			lins = append(lins, fromGenesis("restarted-at-every-third-boundary", dbm.NewMemDB(), func(i int) int {
+				if i%3 == 0 {
+					return 1
+				}
+				return 0
+			}))
+		}
+	}
+	// Ck: opened on a copy of the continuous node's database at boundary k, runs on, and is
+	// restarted again two blocks later.  k: every boundary, or (quick) the boundaries right after
+	// and one block after the first parameter update, plus random ones
 	copyAt := map[int]bool{}
 	if maxCopies >= len(in.Blocks) {
 		for k := 1; k <= len(in.Blocks); k++ {
 			copyAt[k] = true
 		}
 	} else {
+		for b, blk := range in.Blocks {
+			hit := false
+			for _, o := range blk.Ops {
+				hit = hit || o.Op == "params" || strings.HasSuffix(o.Op, "params")
+			}
+			if hit {
+				copyAt[b+1] = true
+				if b+2 < len(in.Blocks) && maxCopies > 1 {
+					copyAt[b+2] = true
+				}
+				break
+			}
+		}
 		for len(copyAt) < maxCopies {
 			copyAt[1+r.Intn(len(in.Blocks))] = true
 		}
 	}
 
 	nBlocks := len(in.Blocks)
+	dropped := map[*lineage]bool{} // lineages whose state diverged in a recorded way (K16): no further comparison
 	for i := 0; i <= nBlocks; i++ {
+		if len(dropped) > 0 {
+			keep := lins[:0]
+			for _, l := range lins {
+				if !dropped[l] {
+					keep = append(keep, l)
+				} else {
+					l.newInstance()
+					droppedSegs = append(droppedSegs, l.segs...)
+				}
+			}
+			lins = keep
+			dropped = map[*lineage]bool{}
+		}
 		// ---- boundary i (height i committed), i >= 1: stop / restart
 		if i >= 1 {
-			if err := l2.reopen(dir); err != nil {
-				return fail("cannot reopen the database: " + err.Error())
+			var qs []qReq
+			var probes [][]byte
+			var names []string
+			var codes []uint32
+			prepare := func() {
+				if qs != nil {
+					return
+				}
+				qctx := committedCtx(l1.h.c.App, l1.h.c.header(l1.h.c.Height, l1.h.c.Time))
+				qs = restartQuerySet(qctx, l1.h.c.App, l1.h)
+				obs.NQueries = len(qs)
+				// probe transactions for CheckTx: an eth transfer and a bank send, built on the continuous node's committed state
+				if bz, _, err := l1.h.c.EthTx(qctx, 5, &[]common.Address{chainAcct(4).Eth}[0], bigOne, nil, 100_000, 0); err == nil {
+					probes, names = append(probes, bz), append(names, "eth transfer")
+				}
+				if bz, err := l1.h.c.CosmosTx(qctx, 4, 300_000, banktypes.NewMsgSend(chainAcct(4).Acc, chainAcct(3).Acc, sdk.NewCoins(coinOf("aISLM", bigOne)))); err == nil {
+					probes, names = append(probes, bz), append(names, "bank send")
+				}
+				for _, tx := range probes {
+					codes = append(codes, l1.h.c.App.CheckTx(abci.RequestCheckTx{Tx: tx, Type: abci.CheckTxType_New}).Code)
+				}
 			}
-			fresh := []*lineage{l2}
+			for _, l := range lins {
+				n := 0
+				if l.reopenAt != nil {
+					n = l.reopenAt(i)
+				}
+				for j := 0; j < n; j++ {
+					if err := l.reopen(); err != nil {
+						return fail(fmt.Sprintf("%s: cannot reopen the database: %v", l.name, err))
+					}
+					prepare()
+					freshChecks(l1, l, qs, &msgs, obs.NodeQuery, &obs.CheckTx, probes, names, codes)
+					obs.Boundaries++
+					obs.Restarts++
+				}
+			}
 			if copyAt[i] && i < nBlocks {
-				cc := c1.attach(openApp(copyMemDB(c1.DB)))
+				cdb := copyMemDB(c1.DB)
+				cc := c1.attach(openApp(cdb))
+				cc.DB = cdb // its own database from here on (it is restarted again later)
 				cc.Tape = &txTape{Replay: true}
 				nh := *l1.h // same run-time bookkeeping (contracts, vesting accounts, denoms) as the continuous node so far
 				nh.c = cc
@@ -422,29 +639,20 @@ func restartRunCase(id string, in hInput, useLevelDB bool, maxCopies int, r *Rng
 					}
 					nh.slots[k] = m
 				}
-				ln := &lineage{name: fmt.Sprintf("opened-on-copy-at-%d", i), h: &nh, from: int64(i + 1)}
+				again := i + 2
+				ln := &lineage{name: fmt.Sprintf("opened-on-copy-at-%d", i), h: &nh, from: int64(i + 1), full: true, restarted: true,
+					reopenAt: func(j int) int {
+						if j == again {
+							return 1
+						}
+						return 0
+					}}
 				ln.newInstance()
 				lins = append(lins, ln)
-				fresh = append(fresh, ln)
-			}
-			qctx := committedCtx(l1.h.c.App, l1.h.c.header(l1.h.c.Height, l1.h.c.Time))
-			qs := restartQuerySet(qctx, l1.h.c.App, l1.h)
-			obs.NQueries = len(qs)
-			// probe transactions for CheckTx: an eth transfer and a bank send, built on the continuous node's committed state
-			probes, names := [][]byte{}, []string{}
-			if bz, _, err := l1.h.c.EthTx(qctx, 5, &[]common.Address{chainAcct(4).Eth}[0], bigOne, nil, 100_000, 0); err == nil {
-				probes, names = append(probes, bz), append(names, "eth transfer")
-			}
-			if bz, err := l1.h.c.CosmosTx(qctx, 4, 300_000, banktypes.NewMsgSend(chainAcct(4).Acc, chainAcct(3).Acc, sdk.NewCoins(coinOf("aISLM", bigOne)))); err == nil {
-				probes, names = append(probes, bz), append(names, "bank send")
-			}
-			codes := []uint32{}
-			for _, tx := range probes {
-				codes = append(codes, l1.h.c.App.CheckTx(abci.RequestCheckTx{Tx: tx, Type: abci.CheckTxType_New}).Code)
-			}
-			for _, l := range fresh {
-				freshChecks(l1, l, qs, &msgs, obs.NodeQuery, &obs.CheckTx, probes, names, codes)
+				prepare()
+				freshChecks(l1, ln, qs, &msgs, obs.NodeQuery, &obs.CheckTx, probes, names, codes)
 				obs.Boundaries++
+				obs.Restarts++
 			}
 		}
 		if i == nBlocks {
@@ -455,7 +663,17 @@ func restartRunCase(id string, in hInput, useLevelDB bool, maxCopies int, r *Rng
 		tapeStart := len(c1.Tape.Txs)
 		ob1, err := runBlock(l1.h, b)
 		if err != nil {
-			return fail(fmt.Sprintf("continuous node, height %d: %v", i+1, err))
+			// a block that the node that never stopped cannot execute (a panic in BeginBlock / EndBlock halts the
+			// chain): not a statement about restarts, unless a restarted node gets through it
+			for _, l := range lins {
+				t := l.h.c.Tape
+				t.Txs, t.Pos = c1.Tape.Txs, tapeStart
+				if _, e2 := runBlock(l.h, b); e2 == nil {
+					msgs = append(msgs, fmt.Sprintf("height %d, %s executes the block; the continuous node: %v", i+1, l.name, err))
+				}
+			}
+			obs.Halted = fmt.Sprintf("height %d: %v", i+1, err)
+			break
 		}
 		obs.BlocksRun++
 		l1.record(ob1)
@@ -464,6 +682,7 @@ func restartRunCase(id string, in hInput, useLevelDB bool, maxCopies int, r *Rng
 		for _, l := range lins {
 			t := l.h.c.Tape
 			t.Txs, t.Pos = c1.Tape.Txs, tapeStart
+			first := l.restarted
 			ob, err := runBlock(l.h, b)
 			obs.BlocksRun++
 			if err != nil {
@@ -474,8 +693,27 @@ func restartRunCase(id string, in hInput, useLevelDB bool, maxCopies int, r *Rng
 			if t.Pos != len(c1.Tape.Txs) {
 				t.Diverged = append(t.Diverged, fmt.Sprintf("height %d: built %d transactions, the continuous node %d", i+1, t.Pos-tapeStart, len(c1.Tape.Txs)-tapeStart))
 			}
-			if d := diffBlock(ob1, ob); d != "" {
-				msgs = append(msgs, fmt.Sprintf("height %d, %s (first block after its restart: %v): %s", i+1, l.name, l.from == int64(i+1) || l == l2, d))
+			if first && hasPreAnte(ob1) {
+				obs.PreAnteShape++
+			}
+			if d := diffBlock(ob1, ob); d != "" && first && hasPreAnte(ob1) {
+				// the shape of K16: the first block after a restart carries a transaction that fails before the
+				// ante handler.  Known: its GasUsed (and what x/feemarket derives from the block gas meter)
+				// differs.  Anything else that differs is a new violation.
+				known, unexplained := explainPreAnte(ob1, ob, l1.h.c.App, l.h.c.App)
+				if unexplained != "" {
+					msgs = append(msgs, fmt.Sprintf("height %d, %s (first block after its restart: true): %s", i+1, l.name, unexplained))
+				} else {
+					obs.PreAnteGas = append(obs.PreAnteGas, fmt.Sprintf("height %d, %s: %s", i+1, l.name, known))
+					if ob.AppHash != ob1.AppHash {
+						dropped[l] = true
+						obs.Dropped = append(obs.Dropped, fmt.Sprintf("%s after height %d", l.name, i+1))
+					}
+				}
+			} else if d != "" {
+				msgs = append(msgs, fmt.Sprintf("height %d, %s (first block after its restart: %v): %s", i+1, l.name, first, d))
+			} else if ob.Params.coq() != ob1.Params.coq() {
+				msgs = append(msgs, fmt.Sprintf("height %d, %s: stored evm / fee market parameters %s, the continuous node %s", i+1, l.name, ob.Params.coq(), ob1.Params.coq()))
 			}
 		}
 	}
@@ -531,6 +769,9 @@ func finishRestart(main Case, obs restartObs, msgs []string, l1 *lineage, lins [
 	if len(obs.UpgradesDone) > 0 {
 		tags["upgrade-applied"] = true
 	}
+	if obs.Halted != "" {
+		tags["chain-halted-on-every-node"] = true
+	}
 	tags["db:"+obs.DB] = true
 	for t := range tags {
 		main.Tags = append(main.Tags, t)
@@ -566,6 +807,18 @@ func finishRestart(main Case, obs restartObs, msgs []string, l1 *lineage, lins [
 		ck.OracleMsg = fmt.Sprintf("%d CheckTx verdict(s) differ, e.g. %s", len(obs.CheckTx), obs.CheckTx[0])
 	}
 	out = append(out, ck)
+
+	// K16: gas reported for a transaction that fails before the ante handler, in the first block after a restart
+	pg := mk("#gas-before-ante", "history/gas-of-tx-failing-before-ante-after-restart")
+	pg.Class = classPreAnte
+	pg.Nontrivial = obs.PreAnteShape > 0
+	pg.Obs = map[string]interface{}{"diffs": obs.PreAnteGas, "dropped": obs.Dropped, "blocks_of_this_shape": obs.PreAnteShape}
+	pg.Tags = []string{"gas-before-ante"}
+	if len(obs.PreAnteGas) > 0 {
+		pg.OracleOK = false
+		pg.OracleMsg = fmt.Sprintf("%d block(s) executed first after a restart report another GasUsed for a transaction that failed before the ante handler, e.g. %s", len(obs.PreAnteGas), obs.PreAnteGas[0])
+	}
+	out = append(out, pg)
 	return out
 }
 
@@ -584,7 +837,8 @@ func genRestartHistory(r *Rng, nBlocks, opsPerBlock int) hInput {
 			in.Blocks[b].Ops = append(in.Blocks[b].Ops, hOp{Op: "upgrade", K: uint64(b), V: uint64(r.Intn(3))})
 		}
 	}
-	return in
+	// the parameter space: updates through the modules' governance handlers, and traffic behind them
+	return addParamSpace(r, in)
 }
 
 // ---------------------------------------------------------------- source scan
@@ -592,6 +846,7 @@ type scanResult struct {
 	FieldWrites []string `json:"keeper_field_writes"`
 	Callers     []string `json:"callers"`
 	Fields      []string `json:"long_lived_struct_fields"` // census: "dir:Type.field type"
+	FieldTests  []string `json:"conditions_on_mutable_keeper_fields"` // latch census: conditions that read a field written after construction
 }
 
 // scanSources walks /repo's non-test Go sources (x/, app/, precompiles/):
@@ -602,6 +857,8 @@ func scanSources(root string) (scanResult, error) {
 	res := scanResult{}
 	watched := map[string]bool{"AddEVMExtensions": true, "RegisterERC20Extensions": true, "WithPrecompiles": true, "WithChainID": true}
 	fset := token.NewFileSet()
+	mutable := map[string]bool{} // "dir:Type.field" written by a method after construction
+	tests := [][2]string{}       // (field key, description) of every condition reading a receiver field
 	for _, sub := range []string{"x", "app", "precompiles"} {
 		err := filepath.Walk(filepath.Join(root, sub), func(path string, info os.FileInfo, err error) error {
 			if err != nil {
@@ -664,8 +921,32 @@ func scanSources(root string) (scanResult, error) {
 						recvType = t.Name
 					}
 				}
+				// latch census: conditions (if / switch / == / !=) that read a field of a long-lived receiver
+				noteTests := func(e ast.Expr) {
+					if e == nil || recvName == "" || !longLived[recvType] {
+						return
+					}
+					ast.Inspect(e, func(n ast.Node) bool {
+						if se, ok := n.(*ast.SelectorExpr); ok {
+							if id, ok := se.X.(*ast.Ident); ok && id.Name == recvName {
+								tests = append(tests, [2]string{filepath.Dir(rel) + ":" + recvType + "." + se.Sel.Name,
+									fmt.Sprintf("%s:(%s).%s tests %s", filepath.Dir(rel), recvType, fd.Name.Name, se.Sel.Name)})
+							}
+						}
+						return true
+					})
+				}
 				ast.Inspect(fd.Body, func(n ast.Node) bool {
 					switch x := n.(type) {
+					case *ast.IfStmt:
+						noteTests(x.Cond)
+					case *ast.SwitchStmt:
+						noteTests(x.Tag)
+					case *ast.BinaryExpr:
+						if x.Op == token.EQL || x.Op == token.NEQ {
+							noteTests(x.X)
+							noteTests(x.Y)
+						}
 					case *ast.AssignStmt:
 						// long-lived objects only: keepers, precompiles, modules, the app
 						if !ptr || recvName == "" || !longLived[recvType] {
@@ -675,6 +956,7 @@ func scanSources(root string) (scanResult, error) {
 							if se, ok := lhs.(*ast.SelectorExpr); ok {
 								if id, ok := se.X.(*ast.Ident); ok && id.Name == recvName {
 									res.FieldWrites = append(res.FieldWrites, fmt.Sprintf("%s:(*%s).%s writes %s", filepath.Dir(rel), recvType, fd.Name.Name, se.Sel.Name))
+									mutable[filepath.Dir(rel)+":"+recvType+"."+se.Sel.Name] = true
 								}
 							}
 						}
@@ -709,6 +991,13 @@ func scanSources(root string) (scanResult, error) {
 			return res, err
 		}
 	}
+	for _, t := range tests {
+		if mutable[t[0]] {
+			res.FieldTests = append(res.FieldTests, t[1])
+		}
+	}
+	sort.Strings(res.FieldTests)
+	res.FieldTests = uniq(res.FieldTests)
 	sort.Strings(res.FieldWrites)
 	sort.Strings(res.Callers)
 	sort.Strings(res.Fields)
@@ -742,6 +1031,18 @@ var allowedFieldWrites = map[string]string{
 	"app:(*tpsCounter).start writes reportPeriod":                "telemetry",
 }
 
+// latch census: every condition that reads an in-memory field which some method writes after
+// construction.  A new one (e.g. "first block after start": `if k.eip155ChainID == nil` in a
+// BeginBlocker) is a once-per-process latch candidate the restart model does not cover.
+var allowedFieldTests = map[string]string{
+	"x/evm/keeper:(Keeper).WithChainID tests eip155ChainID":  "guards against a different chain id; the value is overwritten with the header's id either way (chainid_initial_irrelevant)",
+	"x/evm/keeper:(Keeper).WithPrecompiles tests precompiles": "construction only: panics when set twice",
+	"x/evm/keeper:(Keeper).SetHooks tests hooks":              "construction only: panics when set twice",
+	"x/epochs/keeper:(Keeper).SetHooks tests hooks":           "construction only: panics when set twice",
+	"x/evm/keeper:(Keeper).ApplyTransaction tests hooks":      "hooks are a constant of construction (SetHooks in NewHaqq)",
+	"x/evm/keeper:(Keeper).PostTxProcessing tests hooks":      "hooks are a constant of construction (SetHooks in NewHaqq)",
+}
+
 var allowedCallers = map[string]string{
 	"AddEVMExtensions called on evmKeeper in x/erc20/keeper/precompiles.go:Keeper.RegisterERC20Extensions": "RegisterERC20Extensions itself has no caller",
 	"WithPrecompiles called on evmKeeper in app/app.go:NewHaqq":                                            "construction",
@@ -765,6 +1066,11 @@ func scanCase(root string) Case {
 		}
 		if _, ok := allowedFieldWrites[w]; !ok {
 			msgs = append(msgs, "in-memory field written after construction, not covered by the restart model: "+w)
+		}
+	}
+	for _, t := range res.FieldTests {
+		if _, ok := allowedFieldTests[t]; !ok {
+			msgs = append(msgs, "condition on an in-memory field that changes after construction (a once-per-process latch?), not covered by the restart model: "+t)
 		}
 	}
 	for _, cl := range res.Callers {
